@@ -29,7 +29,7 @@ COMPONENTS = {"real": ["pel.peltool.peltool.main() in-process"],
               "stub": ["directory enumeration order (SimFS)", "stdout capture"]}
 ASSUMPTIONS = ["which of several files whose names contain the id --delete removes is not constrained (readdir dependent)",
                "--json without selection: which PELs get an output is not judged (C07); only names/locations of created files are"]
-PROBES = ["dir_name_contains_id", "json_fault_fired:error", "json_fault_fired:crash_after", "delete_hit", "delete_miss", "delete_all", "json_same_dir", "json_out_dir", "nested_same_id", "id_inner_substring",
+PROBES = ["json_second_directory", "json_clean", "dir_name_contains_id", "json_fault_fired:error", "json_fault_fired:crash_after", "delete_hit", "delete_miss", "delete_all", "json_same_dir", "json_out_dir", "nested_same_id", "id_inner_substring",
           "delete_multi_match"]
 
 READ_MODES = ["-l", "-a", "-n", "-i", "--bmc-id", "--plid", "--src", "--src-exclude", "-lx", "-ax", "-f", "-fx"]
@@ -53,16 +53,21 @@ def gen_plan(rng, tier, run):
         nm = rng.choice(["notes-%08X.txt", "%08X", "x%08Xy", "%08X.json"]) % e
         tree.append({"path": "D/" + nm, "raw_hex": rng.choice([b"", b"hello\n", b"PH", bytes(80)]).hex(), "embeds": e in eids})
     tree.append({"path": "OUT", "dir": True})
+    tree.append({"path": "E", "dir": True})                       # a second, unrelated PEL directory
+    for f in common.gen_store(rng, rng.randint(0, 2), style="bmc", max_sections=2):
+        tree.append({"path": "E/" + f["name"], "recipe": f["recipe"]})
     tree.append({"path": "X/exclude.txt", "raw_hex": "\n".join(rng.sample(common.REFCODE_POOL, 3)).encode().hex()})
     ops = []
     for _ in range(rng.randint(3, 10)):
-        m = rng.choice(READ_MODES + ["-d", "-d", "-d", "-D", "-j", "-j", "-jo", "-jo"])
+        m = rng.choice(READ_MODES + ["-d", "-d", "-d", "-D", "-j", "-j", "-jo", "-jo", "-jE", "-jEc", "-jc"])
         op = {"mode": m, "opts": list(rng.choice(common.SELECTION_SETS)),
               "order": {"policy": rng.choice(["perm", "perm", "asc", "desc"]), "key": rng.randrange(1 << 30)}}
         if rng.random() < 0.2:
             op["opts"].append("-P")
         if rng.random() < 0.2:
             op["opts"].append("-r")
+        if m in READ_MODES and m not in ("-f", "-fx") and rng.random() < 0.15:
+            op["opts"].append("-c")          # --clean belongs to --json / --file; every other mode must ignore it
         if m in ("-i", "-d", "--plid"):
             known = eids + [t["recipe"]["eid"] for t in tree if "recipe" in t]
             e = rng.choice(known) if known and rng.random() < 0.75 else pelgen.gen_id(rng)
@@ -77,7 +82,7 @@ def gen_plan(rng, tier, run):
             op["arg"] = rng.choice(cands) if cands else "D/none"
         if m in ("-j", "-jo") and rng.random() < 0.3:
             op["ext"] = ".pel"
-        if m in ("-j", "-jo") and rng.random() < 0.35:
+        if m in ("-j", "-jo", "-jc") and rng.random() < 0.35:
             ev = rng.choice(["open_out", "write", "write", "close", "close", "remove", "replace", "rename"])
             op["faults"] = [{"on": ev, "nth": rng.choice([0, 0, 1, 2, 57, 400]) if ev == "write" else rng.choice([0, 0, 1]),
                              "kind": rng.choice(["error", "error", "crash_before", "crash_after", "short"]),
@@ -90,8 +95,12 @@ def gen_plan(rng, tier, run):
     if c < 0.25:
         known = eids + [pelgen.gen_id(rng)]
         dname = rng.choice(["cases-%08X", "%08X", "logs.%08X.d"]) % rng.choice(known)
+    elif c < 0.4:
+        dname = rng.choice(["pels[node0]", "run-1[a-z]", "logs*", "what?", "a b", "[0-9]"])
+    if False:
+        pass
         for o in ops:
-            if o["mode"] in ("-d", "-i") and rng.random() < 0.6:
+            if o["mode"] in ("-d", "-i") and rng.random() < 0.6 and c < 0.25:
                 o["arg"] = dname[-10:-2] if dname.endswith(".d") else dname[-8:]
     return {"tree": tree, "ops": ops, "dname": dname, "fresh": rng.random() < 0.4}
 
@@ -120,6 +129,12 @@ def _argv_of(op):
         a += ["-j"]
     elif m == "-jo":
         a += ["-j", "-o", "@/OUT"]
+    elif m == "-jc":
+        a += ["-j", "-c", "-o", "@/OUT"]
+    elif m == "-jE":
+        a = ["-p", "@/E", "-j", "-o", "@/OUT"]
+    elif m == "-jEc":
+        a = ["-p", "@/E", "-j", "-c", "-o", "@/OUT"]
     if op.get("ext"):
         a += ["-e", op["ext"]]
     return a + op["opts"]
@@ -150,6 +165,8 @@ def execute(plan):
     events = 0
     h = hashlib.sha256()
     dname = plan.get("dname", "D")
+    if dname != "D":
+        bump("dir_name_contains_id" if any(ch.isdigit() for ch in dname[-3:]) and "[" not in dname else "dir_name_glob_chars")
 
     def real(path):
         return dname + path[1:] if path == "D" or path.startswith("D/") else path
@@ -191,7 +208,7 @@ def execute(plan):
                 # an uncaught exception is C05/C09 territory; only the frame
                 # condition is judged here
                 bump("uncaught_exception")
-            if changed and m in ("-j", "-jo"):
+            if changed and m in ("-j", "-jo", "-jc", "-jE", "-jEc"):
                 # re-running --json may rewrite its own earlier outputs
                 outdir_ = "D" if m == "-j" else "OUT"
                 changed = [p for p in changed if not (p.rpartition("/")[0] == outdir_ and p in json_outputs)]
@@ -235,27 +252,47 @@ def execute(plan):
                     vio.append(V("delete-all-wrong-set", "--delete-all removed %s, top-level regular files were %s" % (removed, top_files)))
                 bump("delete_all")
                 trace.append("-D:%d" % min(3, len(removed)))
-            elif m in ("-j", "-jo"):
+            elif m in ("-j", "-jo", "-jc", "-jE", "-jEc"):
                 outdir = "D" if m == "-j" else "OUT"
-                if removed:
+                indir = "E" if m in ("-jE", "-jEc") else "D"
+                top_inputs = {p[2:] for p in before if p.startswith(indir + "/") and "/" not in p[2:] and before[p][0] == "f"}
+                if m in ("-jc", "-jEc"):
+                    # --clean may remove top-level inputs of ITS OWN directory (whether each removal was justified is
+                    # C12's business); nothing else may disappear
+                    foreign = [p for p in removed if not (p.startswith(indir + "/") and p[2:] in top_inputs)]
+                    if foreign:
+                        vio.append(V("json-clean-removed-foreign-files", "--json --clean on %s removed %s; %s" % (indir, foreign, ctx)))
+                elif removed:
                     vio.append(V("json-removed-files", ctx))
-                top_inputs = {p[2:] for p in before if p.startswith("D/") and "/" not in p[2:] and before[p][0] == "f"}
                 for p in added:
                     d, _, base = p.rpartition("/")
                     mm = re.fullmatch(r"(.+)\.([0-9A-Fa-f]+)\.json", base)
                     ok = d == outdir and mm is not None and mm.group(1) in top_inputs and after[p][0] == "f"
                     if ok:
-                        src = "D/" + mm.group(1)
+                        src = indir + "/" + mm.group(1)
                         e = created_eid.get(src)
                         if e is None or int(mm.group(2), 16) != e:
                             ok = False
                         if op.get("ext") and not common.ext_matches(mm.group(1), op["ext"]):
                             ok = False
+                    if ok and not r.fired and not r.crashed:
+                        # the id in the name is the entry id the document itself shows
+                        try:
+                            doc = json.loads(w.read(real(p)).decode())
+                            shown = doc["Private Header"]["Entry Id"]
+                            if shown.upper().replace("0X", "") != mm.group(2).upper():
+                                vio.append(V("json-name-id-differs-from-entry-id", "--json created %s but the document inside shows Entry Id %s" % (p, shown)))
+                        except Exception as e:      # noqa
+                            vio.append(V("json-output-unreadable", "--json created %s which is not a readable document (%s) although nothing failed" % (p, type(e).__name__)))
                     if ok:
                         json_outputs.add(p)
                     if not ok:
                         vio.append(V("json-bad-output-name", "--json created %s (output dir %s, inputs %s); %s" % (p, outdir, sorted(top_inputs), ctx)))
                 bump("json_same_dir" if m == "-j" else "json_out_dir")
+                if indir == "E":
+                    bump("json_second_directory")
+                if m in ("-jc", "-jEc"):
+                    bump("json_clean")
                 trace.append("%s:%d%s" % (m, min(3, len(added)), ("!" + r.fired[0]["kind"] + "@" + r.fired[0]["event"]) if r.fired else ""))
     seen, uniq = set(), []
     for v in vio:
